@@ -25,6 +25,13 @@ Theorems (Property.v) — all at full strength since the fix commits 0346f88, fc
       bound measure+1; the others idempotent: second round reports False and changes nothing).
       inits_inputs: AddInitializersToInputsPass touches the main graph only (fix d64e021; Model.add_pass, subgraphs
       proved untouched), RemoveInitializersFromInputsPass every graph (Model.rm_pass)
+  deepening round: C14_flag_exact (modified=False IFF state unchanged, for clear / dce / toposort / add / remove
+      initializers-inputs: so True implies an observable change); OutputFixPass contract-level model (Model.of_pass: per
+      graph-like its inputs, outputs, appended Identity nodes) with C14_outputfix_flag_exact (iff),
+      C14_outputfix_fixpoint (one application reaches the fixpoint when fresh values are numbered above all inputs and
+      outputs) and C14_outputfix_outputs_owned (every output is an old output or the output of an Identity appended
+      to THAT graph); RemoveUnusedOpsetsPass model (Model.uo_pass) with C14_unused_opsets_contract (flag iff
+      unchanged; second run reports False).
   history: C14_history_before_fixes — the models of the code BEFORE the fix commits violate (e)/(b) on six
       witnesses and the current models do not (the witnesses are corpus cases replayed on the implementation).
   Print Assumptions: every theorem closed under the global context.  ck.level = "proof".
@@ -38,6 +45,10 @@ Tie (correspondence, inside Coq via case files; any disagreement = broken corres
           typed or not, also listed as inputs) with succeeding / raising func; observed (raised?, inputs,
           initializer order, per value const identity/shape/dtype) == Model.call_onnx_api.
   clear / dce / topo / io  the REAL passes on generated models, abstraction before/after + flag == model.
+  outputfix   OutputFixPass on dup_output_family + 120 generated models: per graph (inputs, outputs with fresh values
+          anonymised, appended Identity nodes as (input, position of its output)) + flag == Model.of_pass.
+  unused_opsets  RemoveUnusedOpsetsPass(process_functions True/False) on function_family + 100 generated models:
+          opset_imports keys and node domains of the main graph and of every function + flag == Model.uo_pass.
   Gen/C14Gen.v: _BIG_TENSOR_SIZE_LIMIT regenerated from the source each run (fail closed).
 Oracle (the property, public accessors only; _c14_impl.oracle_run): each pass up to size+2 rounds: identity rule;
   modified=False => SerializeToString(deterministic=True) byte-equal; a round with False within the bound, and the
@@ -74,7 +85,8 @@ Modelled, not verified: Graph.sort (C12; abstract `sort`), traversal order of Re
   list equal"), ONNX schema lookups (optional-output trimming of DCE is outside the flat model; oracle only),
   Model.clone (C13), serialization itself (C02/C03; here a byte string), Sequential([]) (ValueError at construction;
   never generated).  The remaining built-in passes (CSE, dedup, identity elimination, inliner, lifting, NameFix,
-  OutputFix, default attributes, unused functions/opsets, shape-inference merge) are covered by the oracle only.
+  default attributes, unused functions, shape-inference merge) are covered by the oracle only (C05 models their effect
+  on the model, not their `modified` flag).  OutputFix value renames (`_alias_i`, `_orig`) are not modelled.
 
 Findings (all repaired; known_findings.d/C14.json status "fixed"; witnesses in corpus/C14 run as ordinary cases;
   proposed_fixes/C14-*.diff are the patches that were committed):
@@ -754,7 +766,7 @@ def correspondence(ck, scale: int) -> dict:
     fam["dce"] = (cases, terms, T_DCE, "dce_agree")
     # ---- OutputFix (contract-level model) on the rich family + the duplicate-output family
     cases, terms = [], []
-    for i, spec in enumerate(dup_output_family() + [I.gen_spec(rng) for _ in range(200 * scale)]):
+    for i, spec in enumerate(dup_output_family() + [I.gen_spec(rng) for _ in range(120 * scale)]):
         try:
             term, mod = run_outputfix_case(spec)
         except Exception as e:  # noqa: BLE001
@@ -769,7 +781,7 @@ def correspondence(ck, scale: int) -> dict:
     fam["outputfix"] = (cases, terms, T_OF, "of_agree")
     # ---- RemoveUnusedOpsets
     cases, terms = [], []
-    for i, spec in enumerate(function_family() + [I.gen_spec(rng) for _ in range(200 * scale)]):
+    for i, spec in enumerate(function_family() + [I.gen_spec(rng) for _ in range(100 * scale)]):
         for pf in (True, False):
             term, mod = run_unused_opsets_case(spec, pf)
             ck.count()
